@@ -2,11 +2,13 @@
 # usage: tools/seedall.sh [seed-id-prefix]
 # Regression run of the checks themselves: every kept seeded change is applied to a copy of
 # /repo and the quick check of its own property must report a violation (exit 1).
-# Lines: CAUGHT / MISSED / NOAPPLY (the patch no longer applies to the current tree).
+# Lines: CAUGHT / MISSED / NOAPPLY (the patch no longer applies to the current tree) / OBSOLETE.
 cd /verif
 for d in seeded/${1}*/; do
   id=$(basename $d); prop=$(echo $id | cut -c1-3)
   pf=/verif/$d/patch.diff
+  # (a change that later repairs of /repo turned into a no-op: its own demonstration passes with it)
+  if [ -f /verif/$d/OBSOLETE ]; then echo "OBSOLETE $id (see seeded/$id/OBSOLETE)"; continue; fi
   # (a patch that a later fix: commit made unappliable has a hand-ported twin next to it)
   for alt in /verif/$d/patch_ported_to_*.diff; do [ -f "$alt" ] && pf="$alt"; done
   out=$(./tools/seedtest.sh $pf $prop 2>&1)
